@@ -63,12 +63,15 @@
   (with a values object) ranges over EVERY line start of the whole last buffer `B`, body and following messages included —
   a typed name at a line start anywhere behind the block (`\nf: z` in a body) takes the input out of their scope;
   `block_all_report_schedule_from` and `line_sound_reported_schedule_from` do not have that restriction. The schedule
-  theorems take a NEW header list (`hsNew kh`), not a reset one.
+  theorems take a NEW header list (`hsNew kh`), not a reset one. STRENGTHENED afterwards (`Sipsp.Proofs.AuditFixC`):
+  `block_sound_in`, `block_ok_iff_in`, `block_*_schedule_in` need the generic-treatment hypothesis only for the line starts
+  INSIDE the accepted block `[o, e)` (a `From:` line in the body no longer matters; the verdict-list form is not redone).
 -/
 import Sipsp.Proofs.HdrSpec
 import Sipsp.Proofs.HdrTyped
 import Sipsp.Proofs.HdrSound
 import Sipsp.Proofs.ResumedConverse
+import Sipsp.Proofs.AuditFixC
 
 namespace Sipsp.C07
 open Sipsp
@@ -360,5 +363,31 @@ theorem pai_values_schedule : type_of% @Sipsp.rc_pai_values_schedule := @Sipsp.r
     meeting its grammar) is reported the same by EVERY chunk schedule: one header per line, in order, the values object
     threaded through the typed lines -/
 theorem typed_block_schedule : type_of% @Sipsp.rc_typed_block_schedule := @Sipsp.rc_typed_block_schedule
+
+/-! ### block soundness with the generic-treatment hypothesis restricted to the line starts INSIDE the accepted block (proved in `Sipsp.Proofs.AuditFixC`) -/
+
+/-- **(2) soundness of an accepted block, hypothesis restricted to the accepted block**: if ParseHeaders ends with OK
+    (or "empty") at `e`, and no line start of `[o, e)` carries a typed name (or there is no values object), then `[o, e)`
+    is a block of the grammar and the list object is exactly what accepting its headers, in order, produces; the values
+    object is untouched.  Nothing is assumed about the bytes from `e` on. -/
+theorem block_sound_in : type_of% @Sipsp.afc_block_sound_in := @Sipsp.afc_block_sound_in
+
+/-- **ParseHeaders (new list object of any capacity) accepts at `e` iff `[o, e)` is a non-empty block of the grammar** —
+    for every `e` such that no line start of `[o, e)` carries a typed name (or without a values object) -/
+theorem block_ok_iff_in : type_of% @Sipsp.afc_block_ok_iff_in := @Sipsp.afc_block_ok_iff_in
+
+theorem block_sound_schedule_in : type_of% @Sipsp.afc_block_sound_schedule := @Sipsp.afc_block_sound_schedule
+
+/-- **`block_sound` over EVERY chunk schedule, hypothesis restricted to the accepted block** of the whole buffer `B` -/
+theorem block_sound_schedule_from_in : type_of% @Sipsp.afc_block_sound_schedule_from := @Sipsp.afc_block_sound_schedule_from
+
+/-- **the chain accepts at `e` iff `[o, e)` of the whole buffer is a non-empty block of the grammar**, for every `e` such
+    that no line start of `[o, e)` carries a typed name -/
+theorem block_ok_iff_schedule_in : type_of% @Sipsp.afc_block_ok_iff_schedule := @Sipsp.afc_block_ok_iff_schedule
+
+/-- **what a block accepted by a chain reports**, hypothesis restricted to the accepted block -/
+theorem block_report_schedule_in : type_of% @Sipsp.afc_block_report_schedule := @Sipsp.afc_block_report_schedule
+
+theorem generic_in_of_generic : type_of% @Sipsp.HsGeneric.afc_in := @Sipsp.HsGeneric.afc_in
 
 end Sipsp.C07
